@@ -47,6 +47,7 @@ package helper
 //@   ensures result == nil ==> (forall x int32 :: {jsonElems(bytesToString(data))[x]} jsonElems(bytesToString(data))[x] <==> (exists j int :: 0 <= j && j < len(deref(asRef(v, "*[]int32"))) && deref(asRef(v, "*[]int32"))[j] == x))
 
 //@ func GetPausedReconcile
+//@   pure
 //@   requires set != nil
 //@   ensures [C11,C19] result == (annOf(set) != nil && annOf(set).has(PausedReconcileAnn) && annOf(set)[PausedReconcileAnn] == "true")
 
@@ -57,7 +58,10 @@ package helper
 //@   ensures [C01] effsub: forall x int32 :: {eff.has(x)} eff.has(x) ==> old(deleteSlots.has(x)) && 0 <= x && x < bound
 //@   ensures [C01] effall: forall x int32 :: {old(deleteSlots.has(x))} old(deleteSlots.has(x)) && 0 <= x && x < bound ==> eff.has(x)
 //@   ensures [C01] boundcard: bound == replicas + card(eff)
+//@   ensures boundle: bound <= replicas + card(old(dom(deleteSlots)))
+//@   ensures [C01] range: forall x int32 :: {eff.has(x)} {count(old(dom(deleteSlots)), 0, x)} desired(replicas, old(dom(deleteSlots)), x) <==> (0 <= x && x < bound && !eff.has(x))
 //@   ensures fresheff: fresh(eff)
+//@   at exit: assert bridge: forall x int32 :: {eff.has(x)} {count(old(dom(deleteSlots)), 0, x)} desiredT(old(dom(deleteSlots)), dom(eff), bound, x)
 //@   ghost var C0 set[int]
 //@   loop 1 "range deleteSlots" visited V
 //@     invariant fresh(deleteSlotsCopy) && deleteSlotsCopy != deleteSlots
